@@ -149,6 +149,12 @@ func init() {
 					return
 				}
 				sealed := false
+				kept := []*biscuit.Biscuit{tok}
+				decBase := append(datalog.SymbolTable{}, base...)
+				if creation < 2 {
+					decBase = datalog.SymbolTable{}
+				}
+				dec := &biscuit.Unmarshaler{Symbols: &decBase} // one decoder for the whole history
 				for k, op := range hist {
 					w.Stats().Transitions++
 					switch op {
@@ -190,7 +196,9 @@ func init() {
 							return
 						}
 						var nt *biscuit.Biscuit
-						if creation >= 2 {
+						if k%2 == 0 {
+							nt, err = dec.Unmarshal(ser)
+						} else if creation >= 2 {
 							t := append(datalog.SymbolTable{}, base...)
 							nt, err = (&biscuit.Unmarshaler{Symbols: &t}).Unmarshal(ser)
 						} else {
@@ -202,6 +210,7 @@ func init() {
 						}
 						tok = nt
 					}
+					kept = append(kept, tok)
 					got := tok.RootKeyID()
 					if (got == nil) != (id == nil) || (got != nil && *got != *id) {
 						w.Class("id-lost")
@@ -210,6 +219,51 @@ func init() {
 					}
 				}
 				w.Stats().States++
+				// every token of the history still reports the creation id (nothing derived later,
+				// nothing loaded later through the same decoder, has changed it)
+				{
+					// a stranger with another identifier goes through the history's decoder last
+					other := uint32(5)
+					if id != nil {
+						other = *id + 1
+					}
+					sb := biscuit.NewBuilder(priv, biscuit.WithRNG(hx.NewRNG(8)), biscuit.WithRootKeyID(other))
+					hx.FillBuilder(sb, poolQ)
+					if st, err := sb.Build(); err == nil {
+						if ser, err := st.Serialize(); err == nil {
+							dec.Unmarshal(ser)
+						}
+					}
+				}
+				for k, t := range kept {
+					if got := t.RootKeyID(); (got == nil) != (id == nil) || (got != nil && *got != *id) {
+						w.Class("id-lost")
+						w.Violate("C16:root-key-id-of-an-earlier-token-changed", human(), fmt.Sprintf("token after step %d now reports %s", k, idStr(got)), idStr(id))
+						return
+					}
+				}
+				var companions []*biscuit.Biscuit
+				if creation == 1 {
+					mk := func(cid *uint32) {
+						var cb biscuit.Builder
+						if cid == nil {
+							cb = biscuit.NewBuilder(priv, biscuit.WithRNG(hx.NewRNG(9)))
+						} else {
+							cb = biscuit.NewBuilder(priv, biscuit.WithRNG(hx.NewRNG(9)), biscuit.WithRootKeyID(*cid))
+						}
+						hx.FillBuilder(cb, poolQ)
+						if c, err := cb.Build(); err == nil {
+							companions = append(companions, c)
+						}
+					}
+					zero := uint32(0)
+					mk(nil)
+					mk(&zero)
+					if id != nil {
+						next := *id + 1
+						mk(&next)
+					}
+				}
 				for _, tb := range c16Tables(id) {
 					var src biscuit.PublickKeyByIDProjection
 					want := 0 // 0 no key, 1 right, 2 wrong
@@ -240,6 +294,13 @@ func init() {
 							want = tb.def
 						} else {
 							want = tb.keys[*id]
+						}
+					}
+					// the same projection value serves every token a verifier sees: before this token it
+					// is shown companions with other identifiers (absent, 0, the token's id + 1)
+					if creation == 1 {
+						for _, c := range companions {
+							c.AuthorizerFor(src, hx.LongLimits)
 						}
 					}
 					_, err := tok.AuthorizerFor(src, hx.LongLimits)
